@@ -589,7 +589,7 @@ func c05GenOps(r *Rand, n int, mode int) []c05Op {
 		return c05Lens[r.Intn(len(c05Lens))]
 	}
 	// a small pool of ids per history, so that updates and deletions of present ids happen
-	pool := make([]int, r.Range(1, 6))
+	pool := make([]int, r.Pick(1, 2, 3, 4, 5, 6, 14, 20))
 	for i := range pool {
 		pool[i] = drawID()
 	}
